@@ -346,12 +346,15 @@ fn parse_subframe(br: &mut Bits, n: usize, bps: u32, issues: &mut Vec<String>) -
             for t in order..n {
                 let mut pred = 0i64;
                 for (k, c) in coefs.iter().enumerate() {
-                    pred += c * sf.samples[t - 1 - k];
+                    pred = c.checked_mul(sf.samples[t - 1 - k]).and_then(|x| pred.checked_add(x)).ok_or("sub.sample_range: fixed-predictor synthesis overflows 64 bits (decoded signal diverges)")?;
                 }
-                let v = pred + sf.residuals[t - order];
+                let v = pred.checked_add(sf.residuals[t - order]).ok_or("sub.sample_range: fixed-predictor synthesis overflows 64 bits")?;
                 if v < lo || v > hi {
                     issues.push(format!("sub.sample_range: reconstructed sample {v} outside {w} bits"));
                 }
+                // like the decoders in use (libFLAC, claxon) the reconstruction wraps at 32 bits;
+                // a stream that relies on it is flagged above, not misdecoded
+                let v = v as i32 as i64;
                 sf.samples.push(v);
             }
         }
@@ -383,12 +386,19 @@ fn parse_subframe(br: &mut Bits, n: usize, bps: u32, issues: &mut Vec<String>) -
             for t in order..n {
                 let mut pred = 0i64;
                 for (k, c) in sf.coefs.iter().enumerate() {
-                    pred += *c as i64 * sf.samples[t - 1 - k];
+                    // a stream that does not decode to in-range samples can make the synthesis diverge
+                    pred = (*c as i64)
+                        .checked_mul(sf.samples[t - 1 - k])
+                        .and_then(|x| pred.checked_add(x))
+                        .ok_or_else(|| format!("sub.sample_range: LPC synthesis overflows 64 bits (decoded signal diverges) at t={t}, order {order}, precision {}, shift {}, coefs {:?}, residuals[..4] {:?}", sf.precision, sf.shift, sf.coefs, &sf.residuals[..sf.residuals.len().min(4)]))?;
                 }
-                let v = (pred >> sf.shift) + sf.residuals[t - order];
+                let v = (pred >> sf.shift).checked_add(sf.residuals[t - order]).ok_or("sub.sample_range: LPC synthesis overflows 64 bits")?;
                 if v < lo || v > hi {
                     issues.push(format!("sub.sample_range: reconstructed sample {v} outside {w} bits"));
                 }
+                // like the decoders in use (libFLAC, claxon) the reconstruction wraps at 32 bits;
+                // a stream that relies on it is flagged above, not misdecoded
+                let v = v as i32 as i64;
                 sf.samples.push(v);
             }
         }
